@@ -314,6 +314,27 @@ func c07Rewrite(rng *rand.Rand, m *dns.Msg) {
 	if len(m.Answer) > 1 && rng.Intn(3) == 0 {
 		m.Answer = m.Answer[:len(m.Answer)-1]
 	}
+	// a section emptied IN PLACE keeps its array (ecscache drops the upstream's OPT like this) ...
+	switch rng.Intn(8) {
+	case 0:
+		m.Extra = m.Extra[:0]
+	case 1:
+		m.Ns = m.Ns[:0]
+	case 2:
+		m.Answer = m.Answer[:0]
+	}
+	// ... and the owner of a message appends to its sections (the ECS echo, the OPT added by the server)
+	switch rng.Intn(6) {
+	case 0:
+		o := &dns.OPT{Hdr: dns.RR_Header{Name: ".", Rrtype: dns.TypeOPT}}
+		o.SetUDPSize(uint16(512 + rng.Intn(4000)))
+		o.Option = append(o.Option, &dns.EDNS0_SUBNET{Code: dns.EDNS0SUBNET, Family: 1, SourceNetmask: 24, SourceScope: uint8(rng.Intn(25)),
+			Address: net.IPv4(10, byte(rng.Intn(250)), byte(rng.Intn(250)), 0).To4()})
+		m.Extra = append(m.Extra, o)
+	case 1:
+		m.Answer = append(m.Answer, &dns.A{Hdr: dns.RR_Header{Name: "appended.c07.example.", Rrtype: dns.TypeA, Class: dns.ClassINET, Ttl: 5},
+			A: net.IPv4(192, 0, 2, byte(rng.Intn(250))).To4()})
+	}
 }
 
 func TestVerifC07Cloner(t *testing.T) {
